@@ -275,8 +275,16 @@ def rule_remove_uncommitted_only(ctx, rule="R28d"):
             if c in ("agdb::Remove::ids", "agdb::Remove::search"):
                 n += 1
                 arg = s2.op(t["a"][1]) if len(t["a"]) > 1 else ""
-                okr = (f == LOGCL + "remove_uncommitted_logs" and c == "agdb::Remove::ids" and
-                       re.search(r"value\(index\(search\(.*\), cluster_log::COMMITTED\), false\)", arg) is not None)
+                # value flow: the ids handed to remove().ids(..) are computed from the result of a query
+                # `search().index(COMMITTED).value(false)` (whatever collects them: filter_map, a loop with push, ...)
+                apl = cfg.op_place(t["a"][1]) if len(t["a"]) > 1 else None
+                sl_, calls_, _rd = cfg.backward_slice(b, [apl[0]]) if apl else (set(), [], set())
+                has_index = any((cfg.callee(ct) or "").split("::")[-1] == "index" and any(
+                    "COMMITTED" in str((cfg.op_const(a) or {}).get("c", "")) for a in ct["a"]) for ci, ct in calls_)
+                has_false = any((cfg.callee(ct) or "").split("::")[-1] == "value" and any(
+                    (cfg.op_const(a) or {}).get("ty") == "bool" and (cfg.op_const(a) or {}).get("v") == 0 for a in ct["a"]) for ci, ct in calls_)
+                has_exec = any((cfg.callee(ct) or "").endswith(("Transaction::exec", "TransactionMut::exec")) for ci, ct in calls_)
+                okr = (f == LOGCL + "remove_uncommitted_logs" and c == "agdb::Remove::ids" and has_index and has_false and has_exec)
                 ctx.ob(rule, "element-removal:%s" % f, okr,
                        "removed ids derive from search().index(COMMITTED).value(false)" if okr else
                        "`%s` removes log elements whose ids do not derive from the `committed == false` index: %s" % (f, arg[:200]),
